@@ -41,6 +41,7 @@ func (vc *VC) prelude() []string {
 func (e *Engine) verifyFunction(fn *ssa.Function, fc *FuncContract, ifaceNames []string) (vc *VC, rep *FuncReport) {
 	vc = e.newVC(fn)
 	vc.fc = fc
+	e.curRoot, e.curScope = fn, []*ssa.Function{fn}
 	rep = &FuncReport{Func: e.shortName(fn)}
 	if fc != nil {
 		rep.Contract = fmt.Sprintf("%s:%d", shortFile(fc.File), fc.Line)
